@@ -277,8 +277,10 @@ ENVELOPE = {
 }
 
 
-def check_envelope(rep, ix, pm):
+def check_envelope(rep, ix, pm, only=None):
     for qual, table in ENVELOPE.items():
+        if only is not None and qual not in only:
+            continue
         f = ix.get_func(M, qual)
         rep.fn(f'{M}:{qual}')
         cls = qual.split('.')[0]
